@@ -173,7 +173,11 @@ pub fn build(m: &Value, how: &str) -> Option<SourceMap> {
                 if b.add_name(n) != i as u32 { return None; }
             }
             let toks = raw_tokens(m);
-            let donor = build(m, "new")?;
+            // (the donor has NO source root: add_token copies the token's RESOLVED source name, so a donor with a root would
+            // hand over prefixed names -- new sources, not the ones added above)
+            let mut m0 = m.clone();
+            m0["root"] = json!([]);
+            let donor = build(&m0, "new")?;
             let mut order: Vec<usize> = (0..toks.len()).collect();
             let mut x: u64 = 0x9E37_79B9 ^ toks.len() as u64;
             for t in &toks { x = x.wrapping_mul(6364136223846793005).wrapping_add(t.dst_col as u64 + 3 * t.dst_line as u64 + 1); }
